@@ -29,6 +29,11 @@ Proof.
   destruct c; reflexivity.
 Qed.
 
+(* the seventh hibernation buffer, as far as its size goes (needed for the file: lengths are int64) *)
+Definition buf_small (d : option (list N)) : Prop :=
+  (N.of_nat (length (match d with Some b => b | None => [] end)) < 2 ^ 63)%N.
+Definition small6 (a : alloc) : Prop := buf_small (nth 6 (hdata a) None).
+
 Lemma alloc_eta : forall a, mkalloc (thr a) (storage a) (gaps a) (hdata a) (hslen a) (hglen a) = a.
 Proof. intros []. reflexivity. Qed.
 
@@ -217,7 +222,12 @@ Section WithLZ4.
   Inductive reachable : world -> Prop :=
   | r_init : reachable init_world
   | r_step : forall w x, reachable w -> reachable (step' w x)
-  | r_clone : forall w c, reachable w -> clone (wa w) = Ok c -> reachable (mkworld c (owned w)).
+  | r_clone : forall w c, reachable w -> clone (wa w) = Ok c -> reachable (mkworld c (owned w))
+  (* an awake allocator with the same cells and gaps: what Boot after Deserialize yields (the threshold
+     is that of the receiving object, the seventh buffer may be an empty slice instead of nil) *)
+  | r_same : forall w a', reachable w -> storage (wa w) <> None ->
+      storage a' = storage (wa w) -> gaps a' = gaps (wa w) -> hslen a' = 0%Z -> hglen a' = 0%Z -> small6 a' ->
+      reachable (mkworld a' (owned w)).
 
   Lemma clone_spec : forall a c, clone a = Ok c ->
     exists s, storage a = Some s /\ c = mkalloc (thr a) (Some s) (Some (glist a)) (repeat None 7) 0 0.
@@ -228,7 +238,7 @@ Section WithLZ4.
 
   Lemma reachable_Inv : forall w, reachable w -> Inv w.
   Proof.
-    intros w H. induction H as [|w x _ IH|w c _ IH Hc].
+    intros w H. induction H as [|w x _ IH|w c _ IH Hc|w a' _ IH Haw Hs' Hg' Hhs' Hhg' _].
     - left. exists [], []. cbn [init_world new_alloc wa owned storage gaps hslen hglen length].
       repeat (split; [reflexivity|]). exact AInv_init.
     - apply step_Inv. exact IH.
@@ -236,6 +246,8 @@ Section WithLZ4.
       destruct IH as [(s0 & g & Hs0 & Hg & _ & _ & HA)|(Hnone & _)]; [|congruence].
       left. exists s, g. cbn [wa owned storage gaps hslen hglen]. unfold glist. rewrite Hg.
       assert (s0 = s) by congruence. subst. auto.
+    - destruct IH as [(s0 & g & Hs0 & Hg & _ & _ & HA)|(Hnone & _)]; [|congruence].
+      left. exists s0, g. cbn [wa owned]. rewrite Hs', Hg'. auto.
   Qed.
 
   Lemma run_reachable : forall ops w, reachable w -> reachable (run compress decompress ops w).
